@@ -466,6 +466,229 @@ void run_case(vf::Ctx &c, const Case &cs, bool through_meter) {
   if (ns < 2) { ++ns; c.sample(cs.desc() + " => " + gs); }
 }
 
+// ---------------------------------------------------------------------------------------------
+// part 4: the EMPTY attribute set, however it comes about, is one value
+// ---------------------------------------------------------------------------------------------
+using IL = std::initializer_list<std::pair<nostd::string_view, AttributeValue>>;
+const char *kEmptyWay[] = {"default-constructed MetricAttributes{}", "copy of a default-constructed map", "default-constructed map move-assigned over a non-empty one",
+                           "empty iterable, no processor", "empty iterable, DefaultAttributesProcessor", "empty iterable, allow{region}",
+                           "empty initializer list", "empty initializer list, allow{region}", "initializer list [a=1] filtered by allow{region}",
+                           "iterable [a=1,b=x] filtered by allow{region} (constructor)", "iterable [a=1,b=x] filtered by allow{region} (process())",
+                           "iterable [a=1] filtered by allow{} (constructor)", "DefaultAttributesProcessor.process(empty iterable)"};
+constexpr int kNEmptyWays = 13;
+sm::MetricAttributes build_empty(int way) {
+  static const TV one = mk(vI32, 1, "int32(1)"), x = mks(vSV, "x", "sv\"x\"");
+  sm::FilteringAttributesProcessor region(std::unordered_map<std::string, bool>{{"region", true}});
+  sm::FilteringAttributesProcessor nothing(std::unordered_map<std::string, bool>{});
+  sm::DefaultAttributesProcessor dflt;
+  Backing bk;
+  KVVec none;
+  KVVec ab = materialize(bk, AList{{"a", &one}, {"b", &x}}, kExactHeap), a = materialize(bk, AList{{"a", &one}}, kExactHeap);
+  opentelemetry::common::KeyValueIterableView<KVVec> inone(none), iab(ab), ia(a);
+  switch (way) {
+    case 0: return sm::MetricAttributes{};
+    case 1: { sm::MetricAttributes d; sm::MetricAttributes e(d); return e; }
+    case 2: { sm::MetricAttributes e(IL{{"a", AttributeValue((int32_t)1)}}); e = sm::MetricAttributes(); return e; }
+    case 3: return sm::MetricAttributes(inone);
+    case 4: return sm::MetricAttributes(inone, &dflt);
+    case 5: return sm::MetricAttributes(inone, &region);
+    case 6: return sm::MetricAttributes(IL{});
+    case 7: return sm::MetricAttributes(IL{}, &region);
+    case 8: return sm::MetricAttributes(IL{{"a", AttributeValue((int32_t)1)}}, &region);
+    case 9: return sm::MetricAttributes(iab, &region);
+    case 10: return region.process(iab);
+    case 11: return sm::MetricAttributes(ia, &nothing);
+    default: return dflt.process(inone);
+  }
+}
+
+void run_empty_ways(vf::Ctx &c) {
+  int w1 = c.pick("way1", kNEmptyWays), w2 = c.pick("way2", kNEmptyWays);
+  int api = c.pick("api", 3);
+  c.stage("empty-set(build)");
+  sm::MetricAttributes m1 = build_empty(w1), m2 = build_empty(w2);
+  c.step(2);
+  std::string d = std::string("empty set built as '") + kEmptyWay[w1] + "' vs '" + kEmptyWay[w2] + "'";
+  CHECK(c, m1.empty() && m2.empty(), "C08:empty-set:not-empty", "a map that must be empty holds {" + vfq::printable(canon_real(m1) + canon_real(m2), 200) + "}; " + d);
+  for (int k = 0; k < 2; ++k) {
+    const sm::MetricAttributes &m = k ? m2 : m1;
+    CHECK(c, m.GetHash() == sc::GetHashForAttributeMap(m), "C08:empty-set:stale-hash",
+          vf::sfmt("the cached hash (0x%zx) of the empty set built as '%s' is not the hash of its content (0x%zx)", m.GetHash(), kEmptyWay[k ? w2 : w1], sc::GetHashForAttributeMap(m)));
+  }
+  CHECK(c, m1 == m2 && m2 == m1, "C08:empty-set:compare-unequal", "two empty attribute sets compare unequal; " + d);
+  CHECK(c, m1.GetHash() == m2.GetHash() && sm::MetricAttributesHash()(m1) == sm::MetricAttributesHash()(m2), "C08:empty-set:hash-differs", "two empty attribute sets hash differently; " + d);
+  c.stage("empty-set(table)");
+  sm::AttributesHashMap table;
+  auto mkagg = []() { return std::unique_ptr<sm::Aggregation>(new sm::LongSumAggregation(true)); };
+  sm::Aggregation *g1 = nullptr, *g2 = nullptr;
+  if (api == 0) { g1 = table.GetOrSetDefault(m1, mkagg); g2 = table.GetOrSetDefault(m2, mkagg); }
+  else if (api == 1) { sm::MetricAttributes t1(m1), t2(m2); g1 = table.GetOrSetDefault(std::move(t1), mkagg); g2 = table.GetOrSetDefault(std::move(t2), mkagg); }
+  else { table.Set(m1, mkagg()); g1 = table.Get(m1); table.Set(m2, mkagg()); g2 = table.Get(m2); }
+  c.step(2);
+  CHECK(c, g1 && g2 && table.Size() == 1, "C08:empty-set:table-different-series", vf::sfmt("%zu series for the empty attribute set (api %d); ", table.Size(), api) + d);
+  if (api != 2) CHECK(c, g1 == g2, "C08:empty-set:table-different-series", "the second lookup of the empty set created another series; " + d);
+  CHECK(c, table.Has(m1) && table.Has(m2) && table.Get(m1) == g2 && table.Get(m2) == g2, "C08:empty-set:table-lookup", "Has/Get disagree for the empty set; " + d);
+  // the recording paths: empty iterable, iterable filtered to empty, and the key the attribute-less overloads use
+  sm::FilteringAttributesProcessor region(std::unordered_map<std::string, bool>{{"region", true}});
+  static const TV one = mk(vI32, 1, "int32(1)");
+  Backing bk;
+  KVVec none, a = materialize(bk, AList{{"a", &one}}, kExactHeap);
+  opentelemetry::common::KeyValueIterableView<KVVec> inone(none), ia(a);
+  sm::Aggregation *g3 = table.GetOrSetDefault(inone, &region, mkagg), *g4 = table.GetOrSetDefault(ia, &region, mkagg);
+  sm::MetricAttributes attrless = sm::MetricAttributes{};
+  sm::Aggregation *g5 = table.GetOrSetDefault(attrless, mkagg);
+  c.step(3);
+  CHECK(c, g3 == g2 && g4 == g2 && g5 == g2 && table.Size() == 1, "C08:empty-set:table-different-series",
+        vf::sfmt("%zu series after looking the empty set up through an empty iterable, a list filtered to empty and MetricAttributes{}; ", table.Size()) + d);
+  c.state(vf::sfmt("empty|%d|%zu|%zx", api, table.Size(), m1.GetHash()));
+  c.outcome(vf::sfmt("empty|%zu|%zx|%zx", table.Size(), m1.GetHash(), m2.GetHash()));
+  static int ns = 0;
+  if (ns < 1) { ++ns; c.sample(d + vf::sfmt(" => equal, hash 0x%zx, one series", m1.GetHash())); }
+}
+
+// ---------------------------------------------------------------------------------------------
+// part 5: measurements without attributes (the attribute-less overloads), with an empty container and
+// with attributes that the view filters away are ONE series; two cycles, delta and cumulative collectors
+// ---------------------------------------------------------------------------------------------
+class PullReader2 : public sm::MetricReader {
+ public:
+  explicit PullReader2(bool cumulative) : cumulative_(cumulative) {}
+  sm::AggregationTemporality GetAggregationTemporality(sm::InstrumentType) const noexcept override { return cumulative_ ? sm::AggregationTemporality::kCumulative : sm::AggregationTemporality::kDelta; }
+  bool cumulative_;
+ private:
+  bool OnForceFlush(std::chrono::microseconds) noexcept override { return true; }
+  bool OnShutDown(std::chrono::microseconds) noexcept override { return true; }
+};
+class Handle2 : public sm::CollectorHandle {
+ public:
+  explicit Handle2(bool cumulative) : cumulative_(cumulative) {}
+  sm::AggregationTemporality GetAggregationTemporality(sm::InstrumentType) noexcept override { return cumulative_ ? sm::AggregationTemporality::kCumulative : sm::AggregationTemporality::kDelta; }
+  bool cumulative_;
+};
+struct Pt { std::string attrs; double total; uint64_t count; };  // count: histogram only (0 otherwise)
+void add_points2(std::vector<Pt> &out, const sm::MetricData &md) {
+  for (auto &pa : md.point_data_attr_) {
+    Pt p{canon_real(pa.attributes), -1, 0};
+    if (nostd::holds_alternative<sm::SumPointData>(pa.point_data)) {
+      auto &sp = nostd::get<sm::SumPointData>(pa.point_data);
+      p.total = nostd::holds_alternative<int64_t>(sp.value_) ? (double)nostd::get<int64_t>(sp.value_) : nostd::get<double>(sp.value_);
+    } else if (nostd::holds_alternative<sm::HistogramPointData>(pa.point_data)) {
+      auto &hp = nostd::get<sm::HistogramPointData>(pa.point_data);
+      p.total = nostd::holds_alternative<int64_t>(hp.sum_) ? (double)nostd::get<int64_t>(hp.sum_) : nostd::get<double>(hp.sum_);
+      p.count = hp.count_;
+    }
+    out.push_back(p);
+  }
+}
+const char *kRecKind[] = {"Add(v)", "Add(v,ctx)", "Add(v,{})", "Add(v,[a=1,b=x])", "Add(v,[region=x])", "Add(v,[region=x,a=1])"};
+const char *kEmptySeam[] = {"storage-long", "storage-double", "meter-counter-uint64", "meter-counter-double", "meter-histogram-uint64", "meter-histogram-double"};
+
+void run_empty_mix(vf::Ctx &c) {
+  int seam = c.pick("seam", 6);
+  int filt = c.pick("filter", 3);   // 0: no filter, 1: allow{region}, 2: allow{} (nothing)
+  static const std::vector<std::vector<int>> kCols = {{0}, {1}, {0, 1}};
+  const std::vector<int> &ct = kCols[c.pick("collectors", 3)];
+  int n = c.pick("records", 4);     // 0..3 records
+  std::vector<int> kind(n);
+  for (int i = 0; i < n; ++i) kind[i] = c.pick("kind", 6);
+  int cut = c.pick("cut", n + 1);   // the first `cut` records fall into cycle 0, the rest into cycle 1
+  std::set<std::string> allow_store;
+  const std::set<std::string> *allow = nullptr;
+  if (filt == 1) { allow_store = {"region"}; allow = &allow_store; }
+  if (filt == 2) { allow = &allow_store; }
+  static const TV one = mk(vI32, 1, "int32(1)"), x = mks(vSV, "x", "sv\"x\"");
+  const AList lists[6] = {{}, {}, {}, {{"a", &one}, {"b", &x}}, {{"region", &x}}, {{"region", &x}, {"a", &one}}};
+  bool is_meter = seam >= 2, is_hist = seam >= 4, is_double = (seam % 2) == 1;
+
+  c.stage("empty-mix(setup)");
+  std::unique_ptr<sm::AttributesProcessor> proc = make_processor(allow);
+  sm::InstrumentDescriptor desc = {"n", "d", "u", sm::InstrumentType::kCounter, is_double ? sm::InstrumentValueType::kDouble : sm::InstrumentValueType::kLong};
+  std::unique_ptr<sm::SyncMetricStorage> storage;
+  std::vector<std::shared_ptr<sm::CollectorHandle>> cols;
+  std::unique_ptr<sm::MeterProvider> mp;
+  std::vector<std::shared_ptr<PullReader2>> readers;
+  nostd::unique_ptr<opentelemetry::metrics::Counter<uint64_t>> cu;
+  nostd::unique_ptr<opentelemetry::metrics::Counter<double>> cd;
+  nostd::unique_ptr<opentelemetry::metrics::Histogram<uint64_t>> hu;
+  nostd::unique_ptr<opentelemetry::metrics::Histogram<double>> hd;
+  nostd::shared_ptr<opentelemetry::metrics::Meter> meter;
+  auto t0 = std::chrono::system_clock::now();
+  if (!is_meter) {
+    storage.reset(new sm::SyncMetricStorage(desc, sm::AggregationType::kSum, proc.get(), nullptr));
+    for (int t : ct) cols.emplace_back(new Handle2(t == 1));
+  } else {
+    mp.reset(new sm::MeterProvider());
+    for (int t : ct) { readers.emplace_back(new PullReader2(t == 1)); mp->AddMetricReader(readers.back()); }
+    std::unique_ptr<sm::View> view(new sm::View("v", "view", "u", sm::AggregationType::kDefault, nullptr, make_processor(allow)));
+    std::unique_ptr<sm::InstrumentSelector> is(new sm::InstrumentSelector(is_hist ? sm::InstrumentType::kHistogram : sm::InstrumentType::kCounter, "n", "u"));
+    std::unique_ptr<sm::MeterSelector> ms(new sm::MeterSelector("m", "1", "s"));
+    mp->AddView(std::move(is), std::move(ms), std::move(view));
+    meter = mp->GetMeter("m", "1", "s");
+    if (is_hist) { if (is_double) hd = meter->CreateDoubleHistogram("n", "d", "u"); else hu = meter->CreateUInt64Histogram("n", "d", "u"); }
+    else { if (is_double) cd = meter->CreateDoubleCounter("n", "d", "u"); else cu = meter->CreateUInt64Counter("n", "d", "u"); }
+  }
+
+  struct R { std::string attrs; double v; };
+  std::vector<R> recs;
+  std::vector<size_t> last(ct.size(), 0);
+  std::string hist = std::string(kEmptySeam[seam]) + ", " + show(allow) + ":";
+  std::string fin;
+  for (int cyc = 0; cyc < 2; ++cyc) {
+    c.stage("empty-mix(record)");
+    for (int i = (cyc == 0 ? 0 : cut); i < (cyc == 0 ? cut : n); ++i) {
+      double v = (double)(1 << i);
+      int k = kind[i];
+      Backing bk;
+      KVVec kv = materialize(bk, lists[k], kExactHeap);
+      opentelemetry::common::KeyValueIterableView<KVVec> it(kv);
+      opentelemetry::context::Context ctx{};
+      if (!is_meter) {
+        if (k <= 1) { if (is_double) storage->RecordDouble(v, ctx); else storage->RecordLong((int64_t)v, ctx); }
+        else { if (is_double) storage->RecordDouble(v, it, ctx); else storage->RecordLong((int64_t)v, it, ctx); }
+      } else if (!is_hist) {
+        if (is_double) { if (k == 0) cd->Add(v); else if (k == 1) cd->Add(v, ctx); else cd->Add(v, it, ctx); }
+        else { if (k == 0) cu->Add((uint64_t)v); else if (k == 1) cu->Add((uint64_t)v, ctx); else cu->Add((uint64_t)v, it, ctx); }
+      } else {
+        if (is_double) { if (k <= 1) hd->Record(v, ctx); else hd->Record(v, it, ctx); }
+        else { if (k <= 1) hu->Record((uint64_t)v, ctx); else hu->Record((uint64_t)v, it, ctx); }
+      }
+      bk.scribble();
+      recs.push_back({strict(model_of(lists[k], allow)), v});
+      hist += vf::sfmt(" %s", kRecKind[k]);
+      c.step();
+    }
+    for (size_t r = 0; r < ct.size(); ++r) {
+      c.stage("empty-mix(collect)");
+      std::vector<Pt> got;
+      if (!is_meter) storage->Collect(cols[r].get(), cols, t0, std::chrono::system_clock::now(), [&](sm::MetricData md) { add_points2(got, md); return true; });
+      else readers[r]->Collect([&](sm::ResourceMetrics &rm) { for (auto &smd : rm.scope_metric_data_) for (auto &md : smd.metric_data_) add_points2(got, md); return true; });
+      c.step();
+      bool cumulative = ct[r] == 1;
+      hist += vf::sfmt(" | C%zu%s", r, cumulative ? "c" : "d");
+      std::map<std::string, std::pair<double, uint64_t>> want;
+      for (size_t i = cumulative ? 0 : last[r]; i < recs.size(); ++i) { want[recs[i].attrs].first += recs[i].v; want[recs[i].attrs].second += 1; }
+      last[r] = recs.size();
+      std::string gs;
+      std::map<std::string, int> seen;
+      for (auto &p : got) { gs += "{" + vfq::printable(p.attrs, 60) + "}=" + vf::sfmt("%g ", p.total); seen[p.attrs]++; }
+      const char *sname = is_meter ? "meter" : "storage";
+      for (auto &sn : seen)
+        if (sn.second > 1) c.fail(vf::sfmt("C08:empty-set:equal-sets-split:%s", sname), vf::sfmt("%d series carry the attribute set {%s}: ", sn.second, vfq::printable(sn.first, 60).c_str()) + hist + " => " + gs);
+      bool ok = got.size() == want.size();
+      for (auto &p : got) {
+        auto w = want.find(p.attrs);
+        ok = ok && w != want.end() && w->second.first == p.total && (!is_hist || w->second.second == p.count);
+      }
+      CHECK(c, ok, vf::sfmt("C08:empty-set:content:%s", sname), "measurements without attributes, with an empty container and with attributes filtered away must be one series carrying the total: " + hist + " => " + gs);
+      c.state(vf::sfmt("mix|%d|%d|%zu|", seam, cyc, r) + gs);
+      if (cyc == 1) fin += gs + "/";
+    }
+  }
+  c.outcome(vf::sfmt("mix|%d|%d|", seam, filt) + fin);
+  static int ns = 0;
+  if (ns < 1) { ++ns; c.sample(hist + " => " + fin); }
+}
+
 const std::set<std::string> *allow_subset(const std::vector<std::string> &keys, int mask, std::set<std::string> &store) {
   // mask 0: no filter (DefaultAttributesProcessor); mask m >= 1: allow-list = subset (m-1) of keys
   if (mask == 0) return nullptr;
@@ -481,7 +704,9 @@ void run(vf::Ctx &c) {
   (void)quiet;
   std::set<std::string> store;
   Case cs;
-  int part = c.pick("part", 4);
+  int part = c.pick("part", 6);
+  if (part == 4) { run_empty_ways(c); return; }
+  if (part == 5) { run_empty_mix(c); return; }
   if (part == 0) {
     // every pair of typed values under one key (and under an allow-list that keeps / drops it)
     int i = c.pick("v1", (int)g_typed.size()), j = c.pick("v2", (int)g_typed.size());
